@@ -1,5 +1,6 @@
 import Proofs.ScsvFaults
 import Proofs.ScsvTerse
+import Proofs.ScsvErrors
 /-! # C16 — SCSV save/read round trip is lossless; invalid schemas and data are refused
 
 Theorems about `Scsv.save` / `Scsv.read` (the model of `pydrex.io.save_scsv` / `read_scsv` at /repo
@@ -183,6 +184,29 @@ theorem fault_field_without_name_is_KeyError (E : FloatExt) (d m : Str) (pre pos
     (hdm : d ≠ m) (hinf : isInfix d m = false) (hpre : ∀ g ∈ pre, FieldValid g) (hf : f.name = none) :
     save E ⟨some d, some m, some (pre ++ f :: post)⟩ (c0 :: cs) = .error .key :=
   save_field_without_name E d m pre post f c0 cs hlen hdm hinf hpre hf
+
+/-! ## which exception classes can escape (for EVERY schema, data set and file text) -/
+
+/-- `save_scsv` ends – whatever the schema and the data are – in the SCSV error, `KeyError` (field
+without name), `TypeError` (delimiter that is not one character; `np.isnan` of a string cell in a
+float/complex column), `IndexError` (no data columns) or outside the model; never in a bare
+`ValueError`. -/
+theorem save_exception_classes (E : FloatExt) (s : Schema) (data : List (List Val)) (e : Err)
+    (h : save E s data = .error e) : e ∈ [Err.scsv, .key, .type, .index, .unmodelled] :=
+  save_errIn E s data e h
+
+/-- `read_scsv` (commit 3a0fc08) ends – whatever the text of the file is – in the SCSV error, the YAML
+error, `TypeError`, `KeyError`, `StopIteration` (no CSV lines), `ValueError`, or outside the model … -/
+theorem read_exception_classes (E : FloatExt) (txt : Str) (e : Err) (h : read E txt = .error e) :
+    e ∈ [Err.scsv, .yaml, .type, .key, .csv, .stopIteration, .value, .unmodelled] :=
+  readLines_errIn E _ e h
+
+/-- … and the only `ValueError` left is the one of `collections.namedtuple` rejecting the field names
+(ragged rows, wrong column count and unparseable cells are the SCSV error). -/
+theorem read_ValueError_only_from_namedtuple (E : FloatExt) (txt : Str) (h : read E txt = .error .value) :
+    ∃ s fs, parseHeader (fenceSplit (splitLines (universalNewlines txt)) false false).1 = .ok s ∧
+      s.fields = some fs ∧ namedtupleOK (fs.map (fun f => f.name.getD [])) = false :=
+  readLines_value E _ h
 
 /-! ## the terse schema notation (`parse_scsv_schema`) -/
 
